@@ -72,8 +72,8 @@ Definition flags_ok (st : state) : Prop :=
     N.of_nat (phc (ids (i_nodes im))) <= i_exec im.
 
 (* the keys of the shared table: user trackables (never the trackable base of a signal), or
-   signal objects g < 1000 under the key 2000 + g *)
-Definition shkey (k : N) : Prop := k < 1000 \/ (2000 <= k /\ k < 3000).
+   signal objects g < 1000 under the key 2000 + g, or connection objects c < 1000 under the key 4000 + c *)
+Definition shkey (k : N) : Prop := k < 1000 \/ (2000 <= k /\ k < 3000) \/ (4000 <= k /\ k < 5000).
 Definition shared_ok (st : state) : Prop := Forall (fun e => shkey (fst e)) (shared st).
 
 Record WF (st : state) : Prop := mkWF
@@ -646,7 +646,7 @@ Proof. intros Hi H w i n Hg. destruct (H w i n Hg) as [X|X]; [left; apply Hi; ex
 Lemma null_watchers_ok ws ex st : watch_ok_ex (ws ++ ex) st -> watch_ok_ex ex (null_watchers ws st).
 Proof.
   intros H w i n Hg. rewrite get_connptr_null_watchers in Hg.
-  destruct (existsb (wref_eqb w) ws) eqn:E; [discriminate|].
+  destruct (existsb (wref_eqb w) ws) eqn:E; [destruct (get_connptr w st); discriminate|].
   destruct (H w i n Hg) as [X|X].
   - apply in_app_or in X. destruct X as [X|X]; [|left; exact X].
     apply existsb_wref in X. congruence.
